@@ -269,7 +269,9 @@ def handle (req : Sexp) : Sexp :=
     let check (r : Raw) (e : Expr) (printed : Except LexErr (List Tok)) : Sexp :=
       let toksEq := match printed with | .ok ts => ts.map key == r.toks.map key | .error _ => false
       let back := match parseExpressionToks r.toks with | .ok r' => (match build r, build r' with | .ok e, .ok e' => e == e' | _, _ => false) | .error _ => false
-      okS [Sexp.ofBool r.printable, Sexp.ofBool toksEq, Sexp.ofBool back, Sexp.ofBool r.lexOkB, Sexp.ofBool (String.ofList r.chars == e.print)]
+      -- `goodNames`: the hypothesis of `parse_print_parse` (Props/C06m) - with it, `printable` is a theorem for every parser output
+      okS [Sexp.ofBool r.printable, Sexp.ofBool toksEq, Sexp.ofBool back, Sexp.ofBool r.lexOkB, Sexp.ofBool (String.ofList r.chars == e.print),
+           Sexp.ofBool r.goodNames]
     if entry == "expression" then
       match lexExpr text with
       | .error _ => errS "syntax"
